@@ -59,7 +59,7 @@ Lemma same_image_spec rc m m' :
   (forall x, In x (image_nodes rc m) <-> In x (image_nodes rc m')) /\
   (forall x, In x (image_edges rc m) <-> In x (image_edges rc m')).
 Proof.
-  unfold same_image. rewrite !andb_true_iff, !forallb_forall. split.
+  unfold same_image, same_img, img. cbn [fst snd]. rewrite !andb_true_iff, !forallb_forall. split.
   - intros (((H1 & H2) & H3) & H4). split; intros x; split; intros Hx.
     + apply in_nodes_spec. exact (H1 x Hx).
     + apply in_nodes_spec. exact (H2 x Hx).
@@ -98,12 +98,12 @@ Qed.
 Lemma images_ok_true (rc : graph) (raw : list mapping) :
   simple_graph rc -> dom_ok rc raw = true -> images_ok rc raw = true.
 Proof.
-  intros Hg Hd. unfold images_ok. apply forallb_forall. intros x Hx. apply existsb_exists.
+  intros Hg Hd. unfold images_ok. apply forallb_forall. intros x Hx. cbv zeta. apply existsb_exists.
   assert (Hdom : forall x p h, In x raw -> In (p, h) ((fun m : mapping => m) x) -> In p (node_ids rc)).
   { intros x0 p h Hx0 Hin. unfold dom_ok in Hd. rewrite forallb_forall in Hd. specialize (Hd x0 Hx0).
     rewrite forallb_forall in Hd. specialize (Hd (p, h) Hin). apply LGraph.mem_spec in Hd. exact Hd. }
   destruct (proj1 (prune_same_images mapping (fun m => m) rc raw Hg Hdom) x Hx) as (y & Hy & E).
-  exists y. split; [exact Hy | exact E].
+  exists (img rc y). split; [apply in_map; exact Hy | exact E].
 Qed.
 
 (** non-vacuity: the example of C11_Main (path 1-2-3, three matches): the dropped mirror match has the image of the first *)
